@@ -1,4 +1,5 @@
 import Sif.Proofs.C15
+set_option linter.unusedSimpArgs false
 /-
   C15 — handler-level and step-level lemmas (what an accepted message implies), used by the
   history theorems of Sif/Props/C15.lean.
